@@ -230,7 +230,8 @@ pub fn check_pos(ctx: &mut Ctx, mp: &MPos, b: &Board) {
         ctx.violation("validator_own_men_tuples", &case, &d);
     }
     // ... and on a sample of positions every well-formed tuple of BOTH colours and ALL men
-    if (ctx.cases % 4 == 1 && (ctx.config != "miri" || ctx.cases == 1)) || ctx.is_replay {
+    let sweeps_done = ctx.features.get("full_tuple_sweeps").copied().unwrap_or(0);
+    if (ctx.cases % 4 == 1 && (ctx.config != "miri" || ctx.cases == 1) && sweeps_done < 25_000) || ctx.is_replay {
         let mut acc: Vec<MMove> = Vec::new();
         let mut n = 0u64;
         for k in MKind::ALL {
